@@ -1056,8 +1056,9 @@ Proof. cbn. tauto. Qed.
 Lemma J_data c s o d : J s o -> J (fst (conn_data c s d)) (obs_run o (snd (conn_data c s d))).
 Proof.
   unfold J, conn_data. destruct (ph s) as [hb|ser ms f| |] eqn:P.
-  - intros [Hs ->]. destruct (hb ++ d) as [|o1 [|o2 [|o3 [|o4 rest]]]]; try (cbn; tauto).
-    destruct (hs_decide c o1 o2 o3 o4) as [ser ms reply|ab reply|e reply].
+  - intros [Hs ->]. destruct (hs_take (c_impl c) hb d) as [h4 rest].
+    destruct h4 as [|o1 [|o2 [|o3 [|o4 [|x r]]]]]; try (cbn; tauto).
+    unfold hs_apply. destruct (hs_decide c o1 o2 o3 o4) as [ser ms reply|ab reply|e reply].
     + unfold data_est. destruct (frame_feed c (FOpen [] None) rest) as [f' fevs].
       pose proof (obs_upper (c_impl c) fevs (script s)) as U.
       destruct (upper (c_impl c) (script s) fevs) as [sc' evs]. cbn [fst snd ph sess] in *.
@@ -1644,8 +1645,9 @@ Proof.
   { intros ser ms f sc d0. unfold data_est. specialize (F f d0 sc). destruct (frame_feed c f d0) as [f' fevs].
     cbn [snd] in F. destruct (upper (c_impl c) sc fevs). exact F. }
   unfold conn_data. destruct (ph s) as [hb|ser ms f| |].
-  - destruct (hb ++ d) as [|o1 [|o2 [|o3 [|o4 rest]]]]; cbn [snd In]; try tauto.
-    rewrite hs_decide_spec. unfold hs_spec.
+  - destruct (hs_take (c_impl c) hb d) as [h4 rest].
+    destruct h4 as [|o1 [|o2 [|o3 [|o4 [|x r]]]]]; cbn [snd In]; try tauto.
+    unfold hs_apply. rewrite hs_decide_spec. unfold hs_spec.
     destruct (c_impl c) eqn:I; destruct (c_role c) eqn:R;
       repeat match goal with |- context [if ?b then _ else _] => destruct b end;
       try (cbn [snd wr In app]; intros H; repeat (destruct H as [H|H]; try discriminate); tauto);
